@@ -1,0 +1,28 @@
+//go:build verif
+
+package httpgrpc
+
+import (
+	"context"
+	"sync/atomic"
+)
+
+// Verification hooks (build tag "verif" only). A monitor installs a callback
+// that is invoked at named schedule points with the context of the call; the
+// callback may park the calling goroutine to pin an interleaving.
+
+var verifHook atomic.Value // of func(point string, ctx context.Context)
+
+// VerifSetHook installs (or, with nil, removes) the schedule-point callback.
+func VerifSetHook(fn func(point string, ctx context.Context)) {
+	if fn == nil {
+		fn = func(string, context.Context) {}
+	}
+	verifHook.Store(fn)
+}
+
+func verifAt(point string, ctx context.Context) {
+	if fn, ok := verifHook.Load().(func(string, context.Context)); ok {
+		fn(point, ctx)
+	}
+}
